@@ -31,7 +31,7 @@ RULE = ("cases: recipes over generated CSV files (0-7 records, 1-4 columns, quot
         "quotes/newlines, unicode, BOM, CRLF, blank lines, short lines) and SQLite tables with the same "
         "content; Dataset.iterate / Dataset.shuffle consumers (count 0..3n+2) at top level, as friend, as "
         "nested object, with repeat unset/True/False; for_each templates (also nested, also shuffled); "
-        "consumers below a for_each; update mode with pass-through fields; 1-2 iterations; a malformed stream "
+        "consumers inside / below a for_each; update mode with pass-through fields; 1-2 iterations; a malformed stream "
         "(line longer than the header, rejected update recipes, missing columns; long lines oracle-only).  The rows "
         "written (per template: for_each record, child_index, consumed records per call site, projected "
         "columns) and the outcome are compared with the Coq model; at most one shuffled use per case, its passes replayed in the model. "
@@ -212,13 +212,15 @@ def effective_top(case):
     return [t2], None
 
 
-def walk(tmpls, rc=False):
-    """yield (template, rc of its row body)"""
+def walk(tmpls, below=False):
+    """yield (template, below) — below: the template is, or lies below, a for_each template.  Since the repair
+    of ForEachVariableDefinition.evaluate (recalculate_every_time restored after the for_each expression) this
+    placement behaves like any other; the flag only feeds the evidence statistics."""
     for t in tmpls:
-        body_rc = rc or t["loop"][0] == "foreach"
-        yield t, body_rc
-        yield from walk(t["nested"], body_rc)
-        yield from walk(t["friends"], body_rc)
+        b = below or t["loop"][0] == "foreach"
+        yield t, b
+        yield from walk(t["nested"], b)
+        yield from walk(t["friends"], b)
 
 
 def all_uses(case):
@@ -334,7 +336,8 @@ def gen_foreach_case(rng, n=None, mode=None, src=None, placement=None, iters=Non
 
 
 def gen_scope_case(rng):
-    """a Dataset.* field inside / below a for_each template (known finding: it restarts every time)"""
+    """a Dataset.* field inside / below a for_each template (regression for the repaired finding
+    'restarted at every evaluation': the call site keeps its iterator like anywhere else)"""
     n = rng.randint(0, 5)
     ds = gen_dataset(rng, n, distinct=True)
     ds1 = gen_dataset(rng, rng.randint(0, 3), distinct=True)
@@ -709,10 +712,7 @@ def infer_draws(case, rows):
             groups[-1].append(r["fe"])
     else:
         vals = [dict(r["cons"]).get(sid) for r in trows]
-        if rc:
-            groups = [[v] for v in vals]
-        else:
-            groups = [vals[i:i + n] for i in range(0, len(vals), max(n, 1))]
+        groups = [vals[i:i + n] for i in range(0, len(vals), max(n, 1))]
     draws = []
     for g in groups:
         free = list(range(n))
@@ -830,7 +830,6 @@ def oracle(case, obs):
         return f"record: {e}"
     top, _ = effective_top(case)
     uses = all_uses(case)
-    scope_msgs = []
     for kind, t, sid, u, rc in uses:
         data = data_of(case, u)
         n = len(data)
@@ -855,10 +854,8 @@ def oracle(case, obs):
                         msg = f"draws {b}..{b + n - 1} of a shuffled {n}-record dataset are not a permutation of it: {vals[b:b + n]}"
                         break
             if msg:
-                if rc:
-                    scope_msgs.append(f"scope: call site s{sid} of T{t['tid']} lies below a for_each: {msg}")
-                else:
-                    return f"iterate: call site s{sid} of T{t['tid']}: {msg}"
+                where = " (below a for_each)" if rc else ""
+                return f"iterate: call site s{sid} of T{t['tid']}{where}: {msg}"
         else:
             # for_each: every evaluation writes the records in order (or each once), child_index 0..n-1
             evals = []
@@ -891,7 +888,6 @@ def oracle(case, obs):
                         return f"for_each: column {name} of {r['fe']} arrived as {got!r}"
     # row counts and outcome, as the property prescribes them
     counts, must_fail = spec_counts(case)
-    has_scope = any(rc and kind == "site" for kind, _, _, _, rc in uses)
     got = Counter(r["tid"] for r in rows)
     msg = None
     if must_fail and err is None:
@@ -904,35 +900,14 @@ def oracle(case, obs):
                 msg = f"T{t['tid']} wrote {got[t['tid']]} rows, expected {counts[t['tid']]}"
                 break
     if msg:
-        if has_scope:
-            scope_msgs.append("scope: " + msg)
-        else:
-            return "count: " + msg
-    return scope_msgs[0] if scope_msgs else None
+        return "count: " + msg
+    return None
 
 
 def match_finding(case, obs, msg, findings):
-    """K-C17-1: a Dataset.iterate/shuffle field inside or below a for_each template gets a brand-new iterator
-    at every evaluation.  Recognised only when the case has such a call site AND every value observed at the
-    linear ones is the first record (the known behaviour); anything else stays a violation."""
-    fid = next((f["id"] for f in findings if f.get("signature") == "call-site-below-for_each"), None)
-    if not fid or not msg.startswith("scope:"):
-        return None
-    scoped = [(t, sid, u) for kind, t, sid, u, rc in all_uses(case) if kind == "site" and rc]
-    if not scoped:
-        return None
-    try:
-        rows = decode(case, obs)
-    except Undecodable:
-        return None
-    for t, sid, u in scoped:
-        data = data_of(case, u)
-        vals = [dict(r["cons"])[sid] for r in rows if r["tid"] == t["tid"]]
-        if u["mode"] == "iterate" and any(v != data[0] for v in vals):
-            return None
-        if u["mode"] == "shuffle" and any(v not in data for v in vals):
-            return None
-    return fid
+    """No open finding for C17 (the one found here, 'Dataset.iterate/shuffle below a for_each restarted at every
+    evaluation', is repaired; its witness corpus/C17/finding_call_site_below_for_each.json is a regression case)."""
+    return None
 
 
 def violation_class(case, obs, msg):
